@@ -908,6 +908,13 @@ def rule_union_length_is_tags(rep, fb, floor=4, name="LENGTH.union-tags"):
         for u in uses:
             n += 1
             incmp = any(find_all((c[2],), lambda q: q is u) or find_all((c[3],), lambda q: q is u) for c in cmps)
+            if not incmp:
+                # `int64_t n = index_.length();` is as good if the local is only ever compared
+                holders = [d for d in find_all(f["body"], lambda k: k[0] == "decl" and k[3] is u)]
+                if holders:
+                    v = ("var", holders[0][1])
+                    reads = find_all(f["body"], lambda q: q == v)
+                    incmp = bool(reads) and all(any(find_all((c[2],), lambda q: q is rd) or find_all((c[3],), lambda q: q is rd) for c in cmps) for rd in reads)
             r.check(incmp, "%s#index_.length%d" % (f["qual"], n), "%s:%d" % (f["file"], u[-1] if isinstance(u[-1], int) else f["line"]),
                     "%s uses index_.length() as a count of items (the array has tags_.length() items)" % f["qual"], detail="only compared")
     if n < 4:
